@@ -30,13 +30,13 @@ Theorem c13_passwd_group : forall maxl f users groups ra f1 f' ra',
      read_or_create maxl f1 etc_passwd passwd_open_perm = FOk (fa, txt) /\ parse_users txt = Some old /\
      ensure_homes maxl fa (old ++ List.map user_to_entry users) = FOk fb /\
      openfile maxl maxl fb etc_passwd create_perm = FOk (fc, i) /\
-     f' = upd fc i (fun n => with_data n (write_users (old ++ List.map user_to_entry users))) /\
+     f' = upd fc i (fun n => trunc_write n (write_users (old ++ List.map user_to_entry users))) /\
      PasswdRealised old users (old ++ List.map user_to_entry users)) /\
   (groups = [] -> f1 = f) /\
   (groups <> [] -> exists fa txt old fb i,
      read_or_create maxl f etc_group group_open_perm = FOk (fa, txt) /\ parse_groups txt = Some old /\
      openfile maxl maxl fa etc_group create_perm = FOk (fb, i) /\
-     f1 = upd fb i (fun n => with_data n (write_groups (old ++ List.map group_to_entry groups))) /\
+     f1 = upd fb i (fun n => trunc_write n (write_groups (old ++ List.map group_to_entry groups))) /\
      GroupFileRealised old groups (old ++ List.map group_to_entry groups)).
 Proof.
   intros maxl f users groups ra f1 f' ra' Hg Hu. split; [|split].
@@ -186,7 +186,8 @@ Print Assumptions c13_mutations_last.
      ONE AND THE SAME node (so they share mode, owner and content for ever);
    - empty-file: an entry that is neither a directory nor a link was opened and
      its own buffer is empty; a reader then sees the backing package entry if
-     there is one (finding C13-F4), nothing otherwise.
+     there is one (finding C13-F4), nothing otherwise — unless truncation lets go
+     of the entry ([tarfs_trunc_detaches], read from pkg/tarfs/fs.go; false today).
    Not proved: that the empty-file path resolves to that very node (openFile and
    getNode resolve a final symbolic link by different rules), nor that it is a
    regular file rather than a device node. *)
@@ -207,7 +208,8 @@ Print Assumptions c13_mutations_kinds.
 
 Theorem c13_empty_file : forall maxl f m f1,
   mutate_empty_file maxl f m = FOk f1 ->
-  exists o n, get f1 o = Some n /\ ndata n = "" /\ edata n = nback n /\ nkind n <> KDir /\ nkind n <> KSym.
+  exists o n, get f1 o = Some n /\ ndata n = "" /\ edata n = nback n /\ nkind n <> KDir /\ nkind n <> KSym /\
+              (tarfs_trunc_detaches = true -> nback n = "").
 Proof. exact empty_file_emptied. Qed.
 Print Assumptions c13_empty_file.
 
